@@ -269,13 +269,19 @@ class Syn(_STIXBase21):
     ])
 
 
-def engine(has_req: bool, req: str, num_kind: int, num: int, flag_kind: int, flag: bool, tags_kind: int, tag: str, has_x: bool, emb_kind: int,
+XVALS = [None, 1, "", 0, None, []]          # x_kind: 0 absent; 1..3 kept (false-y ones included); 4, 5 (None, []) dropped by the constructor
+
+
+def engine(has_req: bool, req: str, num_kind: int, num: int, flag_kind: int, flag: bool, tags_kind: int, tag: str, x_kind: int, emb_kind: int,
            fix_kind: int, allow: bool) -> bool:
     """
     pre: len(req) <= 2 and len(tag) <= 2 and 0 <= num_kind <= 2 and 0 <= flag_kind <= 2 and 0 <= tags_kind <= 3 and 0 <= emb_kind <= 3 and 0 <= fix_kind <= 2
-    pre: emb_kind * 4 + tags_kind == PARTNO
+    pre: emb_kind * 4 + tags_kind == PARTNO and 0 <= x_kind <= 5
     post: _
     """
+    x_kind = pick(x_kind, 6)
+    has_x = x_kind != 0                       # a custom property was supplied (strict mode may refuse it even if it would be dropped)
+    x_kept = x_kind in (1, 2, 3)        # ... and is stored, i.e. the object carries custom content
     kw = {}
     if has_req:
         kw["req"] = req
@@ -294,7 +300,7 @@ def engine(has_req: bool, req: str, num_kind: int, num: int, flag_kind: int, fla
     elif tags_kind == 3:
         kw["tags"] = None
     if has_x:
-        kw["x_extra"] = 1
+        kw["x_extra"] = XVALS[x_kind]
     if emb_kind == 1:
         kw["emb"] = {"a": "v"}
     elif emb_kind == 2:
@@ -306,7 +312,7 @@ def engine(has_req: bool, req: str, num_kind: int, num: int, flag_kind: int, fla
     elif fix_kind == 2:
         kw["fix"] = "G"
     num_bad = num_kind == 1 and not (0 <= num <= 100)
-    custom = has_x or emb_kind == 2
+    custom = x_kept or emb_kind == 2
     invalid = num_bad or emb_kind == 3 or fix_kind == 2 or (emb_kind == 2 and not allow)
     try:
         o = Syn(allow_custom=allow, **kw)
@@ -332,8 +338,8 @@ def engine(has_req: bool, req: str, num_kind: int, num: int, flag_kind: int, fla
         exp["flag"] = True                    # a defaulted optional (False) is dropped from the compact form
     if tags_kind == 1:
         exp["tags"] = [tag]                   # '' is kept; [] and None never stored
-    if has_x:
-        exp["x_extra"] = 1
+    if x_kept:
+        exp["x_extra"] = XVALS[x_kind]
     if emb_kind in (1, 2):
         exp["emb"] = o["emb"]
     if d != exp or list(d.keys()) != [k for k in ("req", "num", "flag", "fix", "tags", "emb", "x_extra") if k in exp]:
